@@ -572,6 +572,13 @@ def run_batch(ck, be, designs, stats, ncycles, nstores, tie=True):
       found = True
       V.report(j, 'port-map', {'what': 'ports of the emitted top module differ from the flat port map (name, (direction, width, elements))',
                                'expected_vs_emitted': [list(map(str, x)) for x in diff[:10]]})
+    if be == 'yosys' and not d.get('finding'):
+      fs = flat_slice_mismatches(j)
+      if fs:
+        stats['flat_slice_mismatch'] = stats.get('flat_slice_mismatch', 0) + 1
+        ck.disagreement('Flat.flatPorts≈YosysStructuralTranslatorL2.vec_conn_gen', {'label': d['label'], 'backend': be, 'src': d['src']},
+                        'Model/Flat.lean: ' + str(fs[0]['model']), 'emitted: ' + str(fs[0]['emitted']) + ' for leaf ' + fs[0]['leaf'])
+      else: stats['flat_slices_checked'] = stats.get('flat_slices_checked', 0) + sum(1 for p in j.ports if p.ty[0] == 'struct')
     if r.multi:
       found = True
       V.report(j, 'multi-driver', {'what': 'a variable bit is written by two processes', 'conflicts': [list(x) for x in r.multi[:10]]})
@@ -613,3 +620,35 @@ def run_batch(ck, be, designs, stats, ncycles, nstores, tie=True):
 def hash_text(s):
   import hashlib
   return hashlib.sha256(s.encode()).hexdigest()[:16]
+
+# ---------------------------------------------------------------------------------------------
+# Yosys backend: the slices the emitted top module connects its flattened struct ports with
+# ---------------------------------------------------------------------------------------------
+def _chain_text(e):
+  k = e[0]
+  if k == 'id': return e[1]
+  if k == 'idx' and e[2][0] in ('num', 'lit'): return f'{_chain_text(e[1])}[{e[2][-1]}]'
+  return None
+
+def emitted_leaf_slices(ptop):
+  """{leaf port name: set of (packed form, msb, lsb)} read off the `assign` items of the emitted top module"""
+  out = {}
+  for it in ptop['items']:
+    if it[0] != 'assign': continue
+    for leaf, rng in ((it[1], it[2]), (it[2], it[1])):
+      if leaf[0] == 'id' and rng[0] == 'rng' and rng[2][0] in ('num', 'lit') and rng[3][0] in ('num', 'lit'):
+        base = _chain_text(rng[1])
+        if base is not None: out.setdefault(leaf[1], set()).add((base, rng[2][-1], rng[3][-1]))
+  return out
+
+def flat_slice_mismatches(job):
+  """ports of struct type: the slice of the packed form each leaf is connected to vs Model/Flat.lean"""
+  got = emitted_leaf_slices(job.ptop)
+  bad = []
+  for p in job.ports:
+    if p.ty[0] != 'struct': continue
+    base = '__'.join(t[1] for t in p.toks if t[0] == 'fld') + ''.join(f'[{t[1]}]' for t in p.toks if t[0] == 'idx')
+    for (name, elem, msb, lsb) in job.mapped.leaves[p.key]:
+      if (base, msb, lsb) not in got.get(name, set()):
+        bad.append({'port': p.key, 'leaf': name, 'model': [base, msb, lsb], 'emitted': sorted(map(list, got.get(name, set())))})
+  return bad
